@@ -119,9 +119,70 @@ def run(prog: Program, rep: Report, tier: str):
     rule_bin(prog, rep, "C18.bin")
     rule_nan(prog, rep, "C18.nan")
     rule_logspace(prog, rep)
+    rule_overflow(prog, rep)
     if tier == "thorough":
         from ..audit import audit_generic
         audit_generic(prog, rep, "C18")
+
+
+OVERFLOWING = ("jax.numpy.exp", "jax.numpy.cosh", "jax.numpy.sinh", "jax.numpy.expm1")
+BOUNDING = ("jax.numpy.minimum", "jax.numpy.clip", "jax.numpy.tanh", "jax.nn.sigmoid", "jax.numpy.where")
+
+
+def _depends_unbounded(t, x):
+    """Does t mention x on a path that passes through no bounding operation?"""
+    if same(t, x):
+        return True
+    if not isinstance(t, tuple) or not t or not isinstance(t[0], str):
+        return False
+    if t[0] == "call" and t[1][0] == "ext" and t[1][1] in BOUNDING:
+        return False
+    return any(_depends_unbounded(ch, x) for ch in _children(t))
+
+
+def _children(t):
+    out = []
+    stack = list(t[1:])
+    while stack:
+        y = stack.pop()
+        if isinstance(y, tuple):
+            if y and isinstance(y[0], str) and y[0] in ("call", "add", "mul", "pow", "sub", "attr", "matmul", "ite", "cmp",
+                                                        "tuple", "list", "sym", "const", "ext", "neg", "binop", "at",
+                                                        "lam", "bv", "map", "fold", "filter"):
+                out.append(y)
+            else:
+                stack.extend(y)
+    return out
+
+
+def rule_overflow(prog, rep):
+    rep.rule("C18.overflow", "no division by exp / cosh / sinh / expm1 of an unbounded function of the method input "
+                             "(a / f(z) with f overflowing): the value tends to 0 but the backward pass forms "
+                             "f'(z) / f(z)^2 = inf / inf = NaN, so a finite log-density gets a NaN gradient at large "
+                             "|z|; the bounded spellings (1 - tanh^2, exp(-z), sigmoid) are to be used", minimum=60)
+    for c, m, t in methods_to_check(prog):
+        site = method_site(prog, c, m) if m != "_log_prob" or "_log_prob" in c.methods else "-"
+        k = f"{c.qualname}.{m}:no-division-by-overflowing-function"
+        if has_unknown(t):
+            continue
+        bad = None
+        for s2 in walk(t):
+            if s2[0] == "pow" and is_const(s2[2]) and isinstance(s2[2][1], (int, float)) and s2[2][1] < 0:
+                base = s2[1]
+                heads = [b for b in walk(base) if b[0] == "call" and b[1][0] == "ext" and b[1][1] in OVERFLOWING]
+                for h in heads:
+                    arg = dict(h[3]).get("a") if h[3] else (h[2][0] if h[2] else None)
+                    if arg is not None and _depends_unbounded(arg, X):
+                        bad = (s2, h)
+                        break
+            if bad:
+                break
+        if bad:
+            rep.violated("C18.overflow", site, k,
+                         f"{show(bad[0], 140)}: division by {bad[1][1][1].rsplit('.', 1)[1]} of an unbounded function of "
+                         f"the input; for large |input| the value is 0 but its gradient is inf/inf = NaN")
+        else:
+            rep.holds("C18.overflow", site, k, "no such division", nontrivial=False)
 
 
 def rule_where(prog, rep):
